@@ -45,9 +45,9 @@ FILES = ['types_compiler.hpp', 'messages_compiler.hpp', 'normal_accessors.hpp', 
 ROLE = {
     'normal_accessors.hpp:make_constant_accessor': ('member', 'constAccessor'),
     'normal_accessors.hpp:make_type_accessor': ('member', 'typeAccessor'),
-    'normal_accessors.hpp:make_accessor#1': ('member', 'enumAccessor'),
-    'normal_accessors.hpp:make_accessor#2': ('member', 'setAccessor'),
-    'normal_accessors.hpp:make_accessor#3': ('member', 'compositeAccessor'),
+    'normal_accessors.hpp:make_accessor#0': ('member', 'enumAccessor'),
+    'normal_accessors.hpp:make_accessor#1': ('member', 'setAccessor'),
+    'normal_accessors.hpp:make_accessor#2': ('member', 'compositeAccessor'),
     'normal_accessors.hpp:make_array_accessor': ('member', 'arrayAccessor'),
     'normal_accessors.hpp:make_by_tag_accessor': ('member', 'byTag'),
     'messages_compiler.hpp:make_group_accessors': ('member', 'groupAccessor'),
@@ -56,13 +56,13 @@ ROLE = {
     'messages_compiler.hpp:make_primitive_cursor_accessors': ('member', 'cursorValue'),
     'messages_compiler.hpp:make_array_cursor_accessors': ('member', 'cursorView'),
     'messages_compiler.hpp:make_type_cursor_accessors': ('member', 'cursorValue'),
-    'messages_compiler.hpp:make_cursor_accessors#1': ('member', 'cursorValue'),
-    'messages_compiler.hpp:make_cursor_accessors#2': ('member', 'cursorView'),
+    'messages_compiler.hpp:make_cursor_accessors#0': ('member', 'cursorValue'),
+    'messages_compiler.hpp:make_cursor_accessors#1': ('member', 'cursorView'),
     'messages_compiler.hpp:make_last_primitive_cursor_accessors': ('member', 'cursorValue'),
     'messages_compiler.hpp:make_last_array_cursor_accessor': ('member', 'cursorView'),
     'messages_compiler.hpp:make_last_type_cursor_accessors': ('member', 'cursorValue'),
-    'messages_compiler.hpp:make_last_cursor_accessors#1': ('member', 'cursorValue'),
-    'messages_compiler.hpp:make_last_cursor_accessors#2': ('member', 'cursorView'),
+    'messages_compiler.hpp:make_last_cursor_accessors#0': ('member', 'cursorValue'),
+    'messages_compiler.hpp:make_last_cursor_accessors#1': ('member', 'cursorView'),
     'messages_compiler.hpp:make_first_group_cursor_accessor': ('member', 'cursorGroup'),
     'messages_compiler.hpp:make_group_cursor_accessor': ('member', 'cursorGroup'),
     'messages_compiler.hpp:make_first_data_cursor_accessor': ('member', 'cursorData'),
@@ -81,14 +81,14 @@ ROLE = {
     'types_compiler.hpp:make_required_type': ('class', 'requiredType'),
     'types_compiler.hpp:make_optional_type': ('class', 'optionalType'),
     'types_compiler.hpp:make_enum_visit_impl': ('class', 'enumVisit'),
-    'types_compiler.hpp:compile_encoding#1': ('class', 'enum'),
+    'types_compiler.hpp:compile_encoding#0': ('class', 'enum'),
     'types_compiler.hpp:make_set_accessors': ('member', 'setChoice'),
     'types_compiler.hpp:make_visit_set_impl': ('member', 'setVisitCall'),
     'types_compiler.hpp:make_visit_set_impl2': ('member', 'setVisitCall'),
-    'types_compiler.hpp:compile_encoding#2': ('class', 'set'),
+    'types_compiler.hpp:compile_encoding#1': ('class', 'set'),
     'types_compiler.hpp:make_children_visit_calls': ('member', 'visitCall'),
     'types_compiler.hpp:make_visit_children': ('fixed', 'compositeVisitChildren'),
-    'types_compiler.hpp:compile_encoding#3': ('class', 'composite'),
+    'types_compiler.hpp:compile_encoding#2': ('class', 'composite'),
     'utils.hpp:make_alias_template': ('class', 'aliasTemplate'),
     'schema_compiler.hpp:make_schema_header_forward_declaration': ('class', 'headerForward'),
 }
@@ -144,8 +144,9 @@ def scan_raw_strings(src):
                 if src[j] == '\\':
                     j += 1
                 j += 1
-            if func_stack:
-                out.append((func_stack[0][0], '\x00' + src[i + 1:j], src.count('\n', 0, i) + 1))
+            if func_stack and '{' in src[i + 1:j]:
+                # format strings written as ordinary literals (`"v.{visitor}(this->{name}(), {tag}{{}})"`)
+                out.append((func_stack[0][0], '\x00' + src[i + 1:j].replace('\\"', '"'), src.count('\n', 0, i) + 1))
             i = j + 1
             header += ' "" '
             continue
@@ -158,7 +159,7 @@ def scan_raw_strings(src):
             i = j + 1
             continue
         if c == '{':
-            if not func_stack and depth >= 2:
+            if not func_stack and depth >= 1:
                 m = re.search(r'([A-Za-z_]\w*)\s*\((?:[^()]|\((?:[^()]|\([^()]*\))*\))*\)\s*(?:const)?\s*(?:noexcept)?\s*$',
                               header.strip())
                 if m and m.group(1) not in ('if', 'for', 'while', 'switch', 'catch'):
@@ -429,6 +430,89 @@ def platform_macros(repo):
     return sorted(obj), sorted(fun - obj), used
 
 
+
+# ------------------------------------------------------------------ members of the runtime base classes
+
+BASES = {'requiredType': 'required_base', 'optionalType': 'optional_base', 'set': 'bitset_base',
+         'composite': 'composite_base', 'message': 'message_base', 'entry': 'entry_base',
+         'groupFlat': 'flat_group_base', 'groupNested': 'nested_group_base', 'byteRange': 'byte_range'}
+
+NOT_MEMBERS = {'if', 'for', 'while', 'switch', 'return', 'sizeof', 'decltype', 'noexcept', 'static_assert', 'alignas',
+               'alignof', 'typename', 'template', 'operator', 'static_cast', 'reinterpret_cast', 'const_cast',
+               'explicit', 'constexpr', 'defined', 'catch'}
+
+
+def strip_cxx_comments(src):
+    out = []
+    i, n = 0, len(src)
+    while i < n:
+        if src.startswith('//', i):
+            j = src.find('\n', i)
+            i = n if j < 0 else j
+        elif src.startswith('/*', i):
+            j = src.find('*/', i + 2)
+            out.append('\n' * src.count('\n', i, (n if j < 0 else j)))
+            i = n if j < 0 else j + 2
+        elif src[i] == '"':
+            j = i + 1
+            while j < n and src[j] != '"':
+                j += 2 if src[j] == '\\' else 1
+            out.append('""')
+            i = j + 1
+        elif src[i] == "'" and i + 2 < n and (src[i + 2] == "'" or src[i + 1] == '\\'):
+            j = src.find("'", i + 2)
+            out.append("' '")
+            i = j + 1
+        else:
+            out.append(src[i])
+            i += 1
+    return ''.join(out)
+
+
+def base_members(src, cls):
+    """names declared directly in the body of `class cls` (member functions, aliases, nested types); private
+    ones included (a derived class of the same name hides them as well)"""
+    m = re.search(r'\bclass\s+(?:alignas\s*\([^)]*\)\s*)?%s\b[^;{]*\{' % re.escape(cls), src)
+    if not m:
+        raise ExtractError('runtime class `%s` not found in sbepp.hpp' % cls)
+    i = m.end() - 1
+    depth = 0
+    j = i
+    while True:
+        if src[j] == '{':
+            depth += 1
+        elif src[j] == '}':
+            depth -= 1
+            if depth == 0:
+                break
+        j += 1
+    body = src[i + 1:j]
+    names = set()
+    depth = 0
+    paren = 0
+    toks = re.findall(r'[A-Za-z_]\w*|::|->|[{}();,.<>=&*~]', body)
+    for k, t in enumerate(toks):
+        if t == '{':
+            depth += 1
+        elif t == '}':
+            depth -= 1
+        elif t == '(':
+            paren += 1
+        elif t == ')':
+            paren -= 1
+        elif depth == 0 and paren == 0 and re.match(r'[A-Za-z_]', t):
+            nxt = toks[k + 1] if k + 1 < len(toks) else ''
+            prv = toks[k - 1] if k > 0 else ''
+            if prv in ('::', '.', '->', '~') or t in NOT_MEMBERS or t.startswith('SBEPP_') or t == cls:
+                continue
+            if t in CXX_WORDS:
+                continue
+            if nxt == '(' and prv not in ('(', ',', '=', 'return'):
+                names.add(t)
+            elif prv == 'using' and nxt == '=':
+                names.add(t)
+    return sorted(names)
+
 # ------------------------------------------------------------------ rendering
 
 def lean_str(s):
@@ -527,7 +611,9 @@ def extract(repo, outdir):
                 agg['unq'] |= fa['unqualified']
                 agg['bases'] |= fa['bases']
                 agg['std'] = agg['std'] or fa['std_unqualified']
-                dot_members |= fa['dot_members']
+                if role[1] in ('typeAccessor', 'cursorValue'):
+                    # `v.value()`: the accessor's value parameter
+                    dot_members |= fa['dot_members']
                 for fn in fa['functions']:
                     functions.setdefault(role[1], set()).add(fn)
             report['templates'][key] = {'role': list(role), 'lines': [l for _, l in lst],
@@ -546,6 +632,21 @@ def extract(repo, outdir):
         ok = False
         report['failed']['templates'] = str(ex)
         members, classes = [], []
+    bases = []
+    try:
+        raw = open(os.path.join(repo, 'sbepp/src/sbepp/sbepp.hpp'), encoding='utf-8').read()
+        report['sources']['sbepp/src/sbepp/sbepp.hpp'] = hashlib.sha256(raw.encode()).hexdigest()
+        hpp = strip_cxx_comments(raw)
+        br = base_members(hpp, 'byte_range')
+        for kind, cls in sorted(BASES.items()):
+            ms = base_members(hpp, cls)
+            if cls != 'byte_range' and re.search(r'class\s+(?:alignas\s*\([^)]*\)\s*)?%s\s*:\s*public\s+byte_range' % cls, hpp):
+                ms = sorted(set(ms) | set(br))
+            bases.append((kind, cls, ms))
+        report['base_members'] = {cls: len(ms) for _, cls, ms in bases}
+    except (ExtractError, OSError) as ex:
+        ok = False
+        report['failed']['base_members'] = str(ex)
     obj, fun, used = platform_macros(repo)
     report['platform_macros'] = {'object_like': len(obj), 'function_like': len(fun), 'compilers': used}
     if not used:
@@ -561,11 +662,14 @@ def extract(repo, outdir):
                           for (k, kind, tp, tc, unq, bases, std) in classes) + ']\n\n'
     text += '/-- member templates that use namespace `std` unqualified (`std::forward`) -/\ndef memberStdUnqualified : List String :=\n  %s\n\n' % \
         lean_list(sorted(set(kind for (_, kind, _, _, std) in members if std)))
-    text += '/-- members of value objects that generated code calls with `.` (`v.value()`) -/\ndef dotMembers : List String := %s\n\n' % lean_list(sorted(dot_members))
+    text += '/-- members that generated value accessors call with `.` on their value parameter (`v.value()`) -/\ndef dotMembers : List String := %s\n\n' % lean_list(sorted(dot_members))
     text += '/-- namespaces opened by the file templates -/\ndef fixedNamespaces : List String := %s\n\n' % lean_list(sorted(namespaces))
     text += '/-- free functions generated in the namespace of a type, by class kind -/\ndef namespaceFunctions : List (String × List String) :=\n  [%s]\n\n' % \
         ', '.join('(%s, %s)' % (lean_str(k), lean_list(sorted(v))) for k, v in sorted(functions.items())
                   if k in ('enumVisit',))
+    text += ('/-- names declared in the runtime base class of a generated class (sbepp.hpp), by class kind: a derived '
+             'class of the same name\n    hides them -/\ndef baseMembers : List (String × String × List String) :=\n  [%s]\n\n'
+             % ',\n   '.join('(%s, %s, %s)' % (lean_str(k), lean_str(c), lean_list(ms)) for k, c, ms in bases))
     text += '/-- `is_cpp_keyword`, sbe_schema_cpp_validator.hpp (names equal to one of these are rejected) -/\ndef cppKeywords : List String :=\n  %s\n\n' % chunk_list(kws)
     text += '/-- `is_reserved_cpp_namespace` (rejected as schema name only) -/\ndef reservedNamespaces : List String := %s\n\n' % lean_list(reserved)
     text += '/-- object-like macros (not reserved identifiers, not self-referential) defined after `#include <sbepp/sbepp.hpp>`\n    with %s -/\ndef objectMacros : List String :=\n  %s\n\n' % (', '.join(used) or 'no compiler', chunk_list(obj))
